@@ -1,7 +1,8 @@
 import Abverif.Proofs.Lemmas.C14Step
 /-!
-C14 — stop(): what can be shown (stop during a retry delay, on a dead loop, or before start really stops the
-component) — the other positions are refuted in Proofs/C14.
+C14 — stop(): once stop() has been called (from any position after start) no connection is attempted any more.
+`transport_check` consults `_stopping`, so whatever becomes of a connect in flight or of a joined session, the
+loop ends at the next check.
 -/
 namespace Abverif.Comp
 open Spec
@@ -14,9 +15,51 @@ def Obs.isStop : Obs → Bool
   | .stop => true
   | _ => false
 
-/-- once the loop has ended nothing changes any more and nothing is attempted -/
+/-! ### logs free of a kind of observation -/
+
+def Free (p : Obs → Bool) (l : List Obs) : Prop := ∀ o ∈ l, p o = false
+
+theorem Free.nil {p : Obs → Bool} : Free p [] := by intro o ho; cases ho
+
+theorem Free.append {p : Obs → Bool} {a b : List Obs} (ha : Free p a) (hb : Free p b) : Free p (a ++ b) := by
+  intro o ho
+  rw [List.mem_append] at ho
+  rcases ho with ho | ho
+  · exact ha o ho
+  · exact hb o ho
+
+theorem Free.cons {p : Obs → Bool} {o : Obs} {r : List Obs} (h : p o = false) (hr : Free p r) :
+    Free p (o :: r) := by
+  intro x hx
+  rw [List.mem_cons] at hx
+  rcases hx with rfl | hx
+  · exact h
+  · exact hr x hx
+
+theorem Free.single {p : Obs → Bool} (o : Obs) (h : p o = false) : Free p [o] := Free.cons h Free.nil
+
+abbrev NoStop (l : List Obs) : Prop := Free Obs.isStop l
+abbrev NoAtt (l : List Obs) : Prop := Free Obs.isAtt l
+
+theorem neutral_not_att (o : Obs) (h : o.neutral = true) : o.isAtt = false := by
+  cases o <;> simp [Obs.neutral] at h <;> rfl
+
+theorem neutral_not_stop (o : Obs) (h : o.neutral = true) : o.isStop = false := by
+  cases o <;> simp [Obs.neutral] at h <;> rfl
+
+theorem free_sfire (p : Obs → Bool) (hp : ∀ o, o.neutral = true → p o = false) (cfg : Cfg) (ev : Ev) (n : Nat) :
+    Free p (sfire cfg ev n) := fun o ho => hp o (sfire_neutral cfg ev n o ho)
+
+theorem free_joinedPre (p : Obs → Bool) (hp : ∀ o, o.neutral = true → p o = false) (hj : ∀ i, p (.join i) = false)
+    (cfg : Cfg) (n i : Nat) : Free p (joinedPre cfg n i) := by
+  unfold joinedPre
+  exact ((((Free.single _ (hp _ rfl)).append (free_sfire p hp _ _ _)).append (Free.single _ (hj i))).append
+    (free_sfire p hp _ _ _)).append (free_sfire p hp _ _ _)
+
+/-! ### once the loop has ended nothing is attempted and start()'s future is not touched -/
+
 theorem dead_fixed (s : State) (hp : s.phase = .dead) (e : Event) :
-    (step s e).1 = s ∧ ∀ o ∈ (step s e).2, o.isAtt = false := by
+    (step s e).1.phase = .dead ∧ (step s e).1.done = s.done ∧ ∀ o ∈ (step s e).2, o.isAtt = false := by
   cases e with
   | start => simp [step, hp]
   | delayElapsed => simp [step, hp]
@@ -25,92 +68,71 @@ theorem dead_fixed (s : State) (hp : s.phase = .dead) (e : Event) :
   | sess e f => cases e <;> simp [step, onSess, hp]
 
 theorem dead_run (s : State) (hp : s.phase = .dead) (es : List Event) :
-    (run s es).1 = s ∧ ∀ o ∈ (run s es).2, o.isAtt = false := by
-  induction es with
-  | nil => simp [run]
+    (run s es).1.phase = .dead ∧ (run s es).1.done = s.done ∧ ∀ o ∈ (run s es).2, o.isAtt = false := by
+  induction es generalizing s with
+  | nil => simp [run, hp]
   | cons e es ih =>
     have h1 := dead_fixed s hp e
-    simp only [run, h1.1, ih.1, true_and]
+    have h2 := ih _ h1.1
+    simp only [run]
+    refine ⟨h2.1, by rw [h2.2.1, h1.2.1], ?_⟩
     intro o ho
     rw [List.mem_append] at ho
     rcases ho with ho | ho
-    · exact h1.2 o ho
-    · exact ih.2 o ho
+    · exact h1.2.2 o ho
+    · exact h2.2.2 o ho
 
 /-! ### no step other than stop() logs a stop -/
 
-def NoStop (l : List Obs) : Prop := ∀ o ∈ l, o.isStop = false
-
-theorem NoStop.nil : NoStop [] := by intro o ho; cases ho
-
-theorem NoStop.append {a b : List Obs} (ha : NoStop a) (hb : NoStop b) : NoStop (a ++ b) := by
-  intro o ho
-  rw [List.mem_append] at ho
-  rcases ho with ho | ho
-  · exact ha o ho
-  · exact hb o ho
-
-theorem NoStop.cons {o : Obs} {r : List Obs} (h : o.isStop = false) (hr : NoStop r) : NoStop (o :: r) := by
-  intro x hx
-  rw [List.mem_cons] at hx
-  rcases hx with rfl | hx
-  · exact h
-  · exact hr x hx
-
-theorem NoStop.single (o : Obs) (h : o.isStop = false) : NoStop [o] := NoStop.cons h NoStop.nil
-
 theorem nostop_setDone (ok : Bool) (s : State) : NoStop (Comp.setDone ok s).2 := by
-  unfold Comp.setDone; split <;> exact NoStop.single _ rfl
+  unfold Comp.setDone; split <;> exact Free.single _ rfl
 
 theorem nostop_tc (s : State) : NoStop (transportCheck s).2 := by
   have hcs := tc_cases s
   generalize transportCheck s = r at hcs ⊢
   cases hcs with
+  | stopped _ => unfold stopCheck; split <;> first | exact Free.single _ rfl | exact Free.nil
   | giveUp _ => exact nostop_setDone _ _
-  | wait => exact NoStop.nil
-  | now => exact NoStop.single _ rfl
+  | wait => exact Free.nil
+  | now => exact Free.single _ rfl
 
 theorem nostop_failRetry (i : Nat) (f : Bool) (s : State) : NoStop (failRetry i f s).2 := by
   unfold failRetry; split
-  · exact NoStop.cons rfl (nostop_tc _)
+  · exact Free.cons rfl (nostop_tc _)
   · exact nostop_tc _
 
 theorem nostop_sessionDone (i : Nat) (f : Bool) (s : State) : NoStop (sessionDone i f s).2 := by
   unfold sessionDone; split
-  · exact NoStop.single _ rfl
+  · exact Free.single _ rfl
   · split
-    · exact NoStop.cons rfl (nostop_failRetry _ _ _)
-    · exact NoStop.single _ rfl
+    · exact Free.cons rfl (nostop_failRetry _ _ _)
+    · exact Free.single _ rfl
 
-theorem nostop_sfire (cfg : Cfg) (ev : Ev) (n : Nat) : NoStop (sfire cfg ev n) := by
-  intro o ho
-  have := sfire_neutral cfg ev n o ho
-  cases o <;> simp [Obs.neutral] at this <;> rfl
+theorem nostop_sfire (cfg : Cfg) (ev : Ev) (n : Nat) : NoStop (sfire cfg ev n) :=
+  free_sfire _ neutral_not_stop cfg ev n
 
-theorem nostop_joinedPre (cfg : Cfg) (n i : Nat) : NoStop (joinedPre cfg n i) := by
-  unfold joinedPre
-  exact ((((NoStop.single _ rfl).append (nostop_sfire _ _ _)).append (NoStop.single _ rfl)).append
-    (nostop_sfire _ _ _)).append (nostop_sfire _ _ _)
+theorem nostop_joinedPre (cfg : Cfg) (n i : Nat) : NoStop (joinedPre cfg n i) :=
+  free_joinedPre _ neutral_not_stop (fun _ => rfl) cfg n i
 
 theorem nostop_step (s : State) (e : Event) (he : e ≠ .stop) : NoStop (step s e).2 := by
   have S := fun ev n => nostop_sfire s.cfg ev n
-  have O := fun (o : Obs) (h : o.isStop = false) => NoStop.single o h
+  have O := fun (o : Obs) (h : o.isStop = false) => Free.single (p := Obs.isStop) o h
   cases e with
-  | start => simp only [step]; split <;> first | exact nostop_tc _ | exact NoStop.nil
-  | delayElapsed => simp only [step]; split <;> first | exact NoStop.single _ rfl | exact NoStop.nil
+  | start => simp only [step]; split <;> first | exact nostop_tc _ | exact Free.nil
+  | delayElapsed => simp only [step]; split <;> first | exact Free.single _ rfl | exact Free.nil
   | stop => exact absurd rfl he
   | outcome o f =>
     simp only [step]
     split
     · next i _ =>
       cases o with
-      | refused => exact NoStop.cons rfl (nostop_failRetry _ _ _)
-      | hsFail => exact NoStop.cons rfl (nostop_failRetry _ _ _)
+      | refused => exact Free.cons rfl (nostop_failRetry _ _ _)
+      | hsFail => exact Free.cons rfl (nostop_failRetry _ _ _)
       | abort =>
         exact (((((O (.fail i) rfl).append (O (.sess s.nsess i) rfl)).append (S _ _)).append (S _ _)).append
           (nostop_failRetry _ _ _)).append (S _ _)
       | joinedLost =>
-        exact NoStop.cons rfl ((((nostop_joinedPre _ _ _).append (S _ _)).append
+        exact Free.cons rfl ((((nostop_joinedPre _ _ _).append (S _ _)).append
           (nostop_failRetry _ _ _)).append (S _ _))
       | joinedLeave =>
         exact ((((nostop_joinedPre _ _ _).append (O _ rfl)).append (S _ _)).append
@@ -119,22 +141,197 @@ theorem nostop_step (s : State) (e : Event) (he : e ≠ .stop) : NoStop (step s 
         simp only [onOutcome]; split
         · exact ((((nostop_joinedPre _ _ _).append (O (.cleanEnd i) rfl)).append (S _ _)).append
             (nostop_sessionDone _ _ _)).append (S _ _)
-        · exact NoStop.nil
+        · exact Free.nil
       | mainRaises =>
         simp only [onOutcome]; split
         · exact ((((nostop_joinedPre _ _ _).append (O (.mainRaised i) rfl)).append
             (nostop_failRetry _ _ _)).append (S _ _)).append (S _ _)
-        · exact NoStop.nil
+        · exact Free.nil
       | joined => exact nostop_joinedPre _ _ _
-    · exact NoStop.nil
+    · exact Free.nil
   | sess e f =>
     simp only [step, onSess]
     split
-    · exact NoStop.cons rfl (((S _ _).append (nostop_failRetry _ _ _)).append (S _ _))
-    · exact NoStop.cons rfl (((S _ _).append (nostop_failRetry _ _ _)).append (S _ _))
+    · exact Free.cons rfl (((S _ _).append (nostop_failRetry _ _ _)).append (S _ _))
+    · exact Free.cons rfl (((S _ _).append (nostop_failRetry _ _ _)).append (S _ _))
     · next i _ => exact (((O (.cleanEnd i) rfl).append (S _ _)).append (nostop_sessionDone _ _ _)).append (S _ _)
     · next i _ => exact (((O (.cleanEnd i) rfl).append (S _ _)).append (nostop_sessionDone _ _ _)).append (S _ _)
-    · exact NoStop.nil
+    · exact Free.nil
+
+/-! ### after stop(): `_stopping` is set and no retry delay is pending — from then on nothing is attempted -/
+
+/-- stop() has been called and no retry delay is pending -/
+def Halted (s : State) : Prop := s.stopping = true ∧ ∀ i d, s.phase ≠ .waiting i d
+
+/-- an emitter that ends the loop -/
+structure HaltR (r : State × List Obs) : Prop where
+  dead : r.1.phase = .dead
+  stopping : r.1.stopping = true
+  noatt : NoAtt r.2
+
+theorem HaltR.halted {r : State × List Obs} (h : HaltR r) : Halted r.1 :=
+  ⟨h.stopping, fun i d hp => by rw [h.dead] at hp; cases hp⟩
+
+theorem stopCheck_halt (s : State) (h : s.stopping = true) : HaltR (stopCheck s) := by
+  unfold stopCheck
+  split
+  · exact ⟨rfl, h, Free.single _ rfl⟩
+  · exact ⟨rfl, h, Free.nil⟩
+
+/-- `transport_check` with `_stopping` set ends the loop -/
+theorem tc_halt (s : State) (h : s.stopping = true) : HaltR (transportCheck s) := by
+  have : transportCheck s = stopCheck s := by unfold transportCheck; simp [h]
+  rw [this]; exact stopCheck_halt s h
+
+theorem failRetry_halt (i : Nat) (f : Bool) (s : State) (h : s.stopping = true) : HaltR (failRetry i f s) := by
+  unfold failRetry
+  split
+  · have := tc_halt { s with trs := updAt Tr.failed s.trs i } h
+    exact ⟨this.dead, this.stopping, Free.cons rfl this.noatt⟩
+  · exact tc_halt s h
+
+theorem sessionDone_halt (i : Nat) (f : Bool) (s : State) (h : s.stopping = true) :
+    HaltR (sessionDone i f s) := by
+  unfold sessionDone
+  split
+  · exact ⟨rfl, h, Free.single _ rfl⟩
+  · split
+    · have := failRetry_halt i f s h
+      exact ⟨this.dead, this.stopping, Free.cons rfl this.noatt⟩
+    · exact ⟨rfl, h, Free.single _ rfl⟩
+
+theorem HaltR.wrap {r : State × List Obs} (h : HaltR r) {pre post : List Obs} (hpre : NoAtt pre)
+    (hpost : NoAtt post) : Halted r.1 ∧ NoAtt (pre ++ r.2 ++ post) :=
+  ⟨h.halted, (hpre.append h.noatt).append hpost⟩
+
+theorem setDone_stopping (ok : Bool) (s : State) : (Comp.setDone ok s).1.stopping = s.stopping := by
+  unfold Comp.setDone; split <;> rfl
+
+theorem noatt_setDone (ok : Bool) (s : State) : NoAtt (Comp.setDone ok s).2 := by
+  unfold Comp.setDone; split <;> exact Free.single _ rfl
+
+/-- stop() called anywhere after start leaves the component halted, and itself attempts nothing -/
+theorem stop_halts (s : State) (hp : s.phase ≠ .idle) :
+    Halted (step s .stop).1 ∧ NoAtt (step s .stop).2 := by
+  simp only [step, onStop]
+  split
+  · next h => exact absurd h hp
+  · refine ⟨⟨?_, fun i d h => by simp at h⟩, Free.cons rfl (noatt_setDone _ _)⟩
+    show (Comp.setDone true { s with stopping := true }).1.stopping = true
+    rw [setDone_stopping]
+  · next i h =>
+    split
+    · exact ⟨⟨rfl, fun j d hj => by simp [h] at hj⟩, Free.cons rfl (Free.single _ rfl)⟩
+    · exact ⟨⟨rfl, fun j d hj => by simp [h] at hj⟩, Free.single _ rfl⟩
+  · exact ⟨⟨rfl, fun j d hj => by simp at hj⟩, Free.single _ rfl⟩
+  · next h1 h2 h3 h4 =>
+    exact ⟨⟨rfl, fun j d hj => h2 j d hj⟩, Free.single _ rfl⟩
+
+theorem halted_step (s : State) (h : Halted s) (e : Event) :
+    Halted (step s e).1 ∧ NoAtt (step s e).2 := by
+  obtain ⟨hs, hw⟩ := h
+  have A : ∀ o : Obs, o.neutral = true → o.isAtt = false := neutral_not_att
+  have S := fun ev n => free_sfire Obs.isAtt A s.cfg ev n
+  have J := fun n i => free_joinedPre Obs.isAtt A (fun _ => rfl) s.cfg n i
+  have O := fun (o : Obs) (h : o.isAtt = false) => Free.single (p := Obs.isAtt) o h
+  cases e with
+  | start =>
+    simp only [step]
+    split
+    · have := tc_halt s hs; exact ⟨this.halted, this.noatt⟩
+    · exact ⟨⟨hs, hw⟩, Free.nil⟩
+  | delayElapsed =>
+    -- no delay is pending (`hw`): the match falls through
+    simp only [step]
+    exact ⟨⟨hs, hw⟩, Free.nil⟩
+  | stop =>
+    by_cases hp : s.phase = .idle
+    · have e1 : step s .stop = (s, []) := by simp [step, onStop, hp]
+      rw [e1]; exact ⟨⟨hs, hw⟩, Free.nil⟩
+    · exact stop_halts s hp
+  | outcome o f =>
+    simp only [step]
+    split
+    · next i hp =>
+      cases o with
+      | refused =>
+        have := (failRetry_halt i f
+          { s with trs := updAt (fun t => { t with failures := t.failures + (if s.cfg.aio then 2 else 1) }) s.trs i }
+          hs).wrap (pre := [.fail i]) (post := []) (O _ rfl) Free.nil
+        simpa [onOutcome] using this
+      | hsFail =>
+        have := (failRetry_halt i f s hs).wrap (pre := [.fail i]) (post := []) (O _ rfl) Free.nil
+        simpa [onOutcome] using this
+      | abort =>
+        have := (failRetry_halt i f { s with nsess := s.nsess + 1 } hs).wrap
+          (pre := [.fail i, .sess s.nsess i] ++ sfire s.cfg .connect s.nsess ++ sfire s.cfg .leave s.nsess)
+          (post := sfire s.cfg .disconnect s.nsess)
+          (((Free.cons rfl (O _ rfl)).append (S _ _)).append (S _ _)) (S _ _)
+        simpa [onOutcome] using this
+      | joinedLost =>
+        have := (failRetry_halt i f (joinOn i { s with nsess := s.nsess + 1 }) hs).wrap
+          (pre := .fail i :: joinedPre s.cfg s.nsess i ++ sfire s.cfg .leave s.nsess)
+          (post := sfire s.cfg .disconnect s.nsess)
+          (Free.cons rfl ((J _ _).append (S _ _))) (S _ _)
+        simpa [onOutcome] using this
+      | joinedLeave =>
+        have := (sessionDone_halt i f (joinOn i { s with nsess := s.nsess + 1 }) hs).wrap
+          (pre := joinedPre s.cfg s.nsess i ++ [.cleanEnd i] ++ sfire s.cfg .leave s.nsess)
+          (post := sfire s.cfg .disconnect s.nsess)
+          (((J _ _).append (O _ rfl)).append (S _ _)) (S _ _)
+        simpa [onOutcome] using this
+      | mainReturns =>
+        simp only [onOutcome]
+        split
+        · have := (sessionDone_halt i f (joinOn i { s with nsess := s.nsess + 1 }) hs).wrap
+            (pre := joinedPre s.cfg s.nsess i ++ [.cleanEnd i] ++ sfire s.cfg .leave s.nsess)
+            (post := sfire s.cfg .disconnect s.nsess)
+            (((J _ _).append (O _ rfl)).append (S _ _)) (S _ _)
+          simpa using this
+        · exact ⟨⟨hs, hw⟩, Free.nil⟩
+      | mainRaises =>
+        simp only [onOutcome]
+        split
+        · have := (failRetry_halt i f (joinOn i { s with nsess := s.nsess + 1 }) hs).wrap
+            (pre := joinedPre s.cfg s.nsess i ++ [.mainRaised i])
+            (post := sfire s.cfg .leave s.nsess ++ sfire s.cfg .disconnect s.nsess)
+            ((J _ _).append (O _ rfl)) ((S _ _).append (S _ _))
+          simpa using this
+        · exact ⟨⟨hs, hw⟩, Free.nil⟩
+      | joined =>
+        simp only [onOutcome]
+        exact ⟨⟨hs, fun j d hj => by simp at hj⟩, J _ _⟩
+    · exact ⟨⟨hs, hw⟩, Free.nil⟩
+  | sess e f =>
+    simp only [step, onSess]
+    split
+    · next i _ =>
+      have := (failRetry_halt i f s hs).wrap (pre := .fail i :: sfire s.cfg .leave (s.nsess - 1))
+        (post := sfire s.cfg .disconnect (s.nsess - 1)) (Free.cons rfl (S _ _)) (S _ _)
+      simpa using this
+    · next i _ =>
+      have := (failRetry_halt i f s hs).wrap (pre := .fail i :: sfire s.cfg .leave (s.nsess - 1))
+        (post := sfire s.cfg .disconnect (s.nsess - 1)) (Free.cons rfl (S _ _)) (S _ _)
+      simpa using this
+    · next i _ =>
+      have := (sessionDone_halt i f s hs).wrap (pre := [.cleanEnd i] ++ sfire s.cfg .leave (s.nsess - 1))
+        (post := sfire s.cfg .disconnect (s.nsess - 1)) ((O _ rfl).append (S _ _)) (S _ _)
+      simpa using this
+    · next i _ =>
+      have := (sessionDone_halt i f s hs).wrap (pre := [.cleanEnd i] ++ sfire s.cfg .leave (s.nsess - 1))
+        (post := sfire s.cfg .disconnect (s.nsess - 1)) ((O _ rfl).append (S _ _)) (S _ _)
+      simpa using this
+    · exact ⟨⟨hs, hw⟩, Free.nil⟩
+
+theorem halted_run (s : State) (h : Halted s) (es : List Event) :
+    Halted (run s es).1 ∧ NoAtt (run s es).2 := by
+  induction es generalizing s with
+  | nil => exact ⟨h, Free.nil⟩
+  | cons e es ih =>
+    have h1 := halted_step s h e
+    have h2 := ih _ h1.1
+    simp only [run]
+    exact ⟨h2.1, h1.2.append h2.2⟩
 
 /-! ### the stop monitor -/
 
@@ -146,7 +343,7 @@ theorem chkStop_nostop (c : Conf) (k : Core) (l : List Obs) (hk : k.stopped = fa
   | cons o r ih =>
     have ho := hl o (by simp)
     have hk' : (k.feed c o).stopped = false := by
-      cases o <;> simp [Obs.isStop] at ho <;> simp only [Core.feed] <;> first | exact hk | (split <;> exact hk)
+      cases o <;> simp [Obs.isStop] at ho <;> simp only [Core.feed] <;> exact hk
     have hc : chkStop c k o = true := by cases o <;> simp [chkStop, hk]
     simp only [specAll, hc, Bool.true_and, feedAll_cons]
     exact ih _ hk' (fun o' ho' => hl o' (by simp [ho']))
@@ -161,55 +358,35 @@ theorem chkStop_noatt (c : Conf) (k : Core) (l : List Obs) (hl : ∀ o ∈ l, o.
     simp only [specAll, hc, Bool.true_and]
     exact ih _ (fun o' ho' => hl o' (by simp [ho']))
 
-/-- every stop() in the history is called before start, during a retry delay, or when the loop has ended -/
-def StopsBenign (s : State) : List Event → Prop
-  | [] => True
-  | e :: es =>
-    (e = .stop → (s.phase = .idle ∨ (∃ i d, s.phase = .waiting i d) ∨ s.phase = .dead))
-      ∧ StopsBenign (step s e).1 es
-
-theorem stop_run (c : Conf) (s : State) (k : Core) (hinv : k.stopped = true → s.phase = .dead)
-    (es : List Event) (hb : StopsBenign s es) : specAll chkStop finTrue c k false (run s es).2 = true := by
+/-- the monitor "no connection attempt after stop()" accepts every run: as long as the log carries no stop the
+monitor has nothing to reject; a stop() before start is not logged; any other stop() halts the component -/
+theorem stop_run (c : Conf) (s : State) (k : Core) (hinv : k.stopped = true → Halted s)
+    (es : List Event) : specAll chkStop finTrue c k false (run s es).2 = true := by
   induction es generalizing s k with
   | nil => rfl
   | cons e es ih =>
     simp only [run]
     rw [specAll_append]
-    obtain ⟨hb1, hb2⟩ := hb
-    by_cases hdead : s.phase = .dead
-    · -- nothing is ever attempted again
-      have h1 := dead_fixed s hdead e
-      have h2 := dead_run s hdead es
-      rw [h1.1]
+    cases hk : k.stopped with
+    | true =>
+      have h1 := halted_step s (hinv hk) e
+      have h2 := halted_run _ h1.1 es
       rw [chkStop_noatt c k _ h1.2, chkStop_noatt c _ _ h2.2]; rfl
-    · have hk : k.stopped = false := by
-        cases hs : k.stopped with
-        | false => rfl
-        | true => exact absurd (hinv hs) hdead
+    | false =>
       by_cases he : e = .stop
       · subst he
-        rcases hb1 rfl with hp | ⟨i, d, hp⟩ | hp
+        by_cases hp : s.phase = .idle
         · -- before start: stop() is not even logged
           have e1 : step s .stop = (s, []) := by simp [step, onStop, hp]
-          rw [e1] at hb2 ⊢
+          rw [e1]
           simp only [specAll, finTrue, Bool.true_and, feedAll_nil]
-          exact ih s k hinv hb2
-        · -- during a delay: the loop ends here
-          have hd : (step s .stop).1.phase = .dead := by simp [step, onStop, hp]
-          have hn : ∀ o ∈ (step s .stop).2, o.isAtt = false := by
-            simp only [step, onStop, hp]
-            intro o ho
-            simp only [List.mem_cons] at ho
-            rcases ho with rfl | ho
-            · rfl
-            · unfold Comp.setDone at ho
-              split at ho <;> simp at ho <;> subst ho <;> rfl
-          have h2 := dead_run _ hd es
-          rw [chkStop_noatt c k _ hn, chkStop_noatt c _ _ h2.2]; rfl
-        · exact absurd hp hdead
+          exact ih s k hinv
+        · have h1 := stop_halts s hp
+          have h2 := halted_run _ h1.1 es
+          rw [chkStop_noatt c k _ h1.2, chkStop_noatt c _ _ h2.2]; rfl
       · have hn := nostop_step s e he
         have h1 := chkStop_nostop c k _ hk hn
         rw [h1.1, Bool.true_and]
-        exact ih _ _ (fun hs => by rw [h1.2] at hs; cases hs) hb2
+        exact ih _ _ (fun hs => by rw [h1.2] at hs; cases hs)
 
 end Abverif.Comp
